@@ -176,6 +176,13 @@ def units(tier, seed):
             for icpt in (True, False):
                 block.append({"terms": fam, "icpt": icpt, "lv": {"f": 3, "g": 2, "k": 3}, "sub": [var, atom]})
         u.append(block)
+    # a numeric column very far from zero compared with its spread (1e8 + small), seen only through scale / center
+    block = []
+    for atom in ("scale(x)", "center(x)", "standardize(x)"):
+        for fam in ([["x"]], [["f"], ["x"]], [["f", "x"]], [["x"], ["f", "x"]], [["g"], ["f", "x", "g"]], [["x", "f"], ["f"]]):
+            for icpt in (True, False):
+                block.append({"terms": fam, "icpt": icpt, "lv": {"f": 3, "g": 2, "k": 3}, "sub": ["x", atom], "far": True})
+    u.append(block)
     return u
 
 
@@ -235,7 +242,7 @@ def atom_columns(name, sub, df):
         deg = int(text.split(",")[1].strip(" )"))
         Q, _ = np.linalg.qr(np.column_stack([v ** k for k in range(deg + 1)]))
         return Q[:, 1:]
-    if text.startswith("scale("):
+    if text.startswith("scale(") or text.startswith("standardize("):
         return ((v - v.mean()) / v.std())[:, None]
     if text.startswith("center("):
         return (v - v.mean())[:, None]
@@ -266,6 +273,9 @@ def check_case(case, acc):
     from fmc.core import exc_sig
 
     df = frame_for(case["lv"], case.get("reps", 2), case.get("sorted", False))
+    if case.get("far"):
+        df = df.copy()
+        df["x"] = 1e8 + (df["x"] - 5.0) / 3.0
     f = formula_of(case)
     acc.calls += 1
     acc.traces += 1
@@ -345,6 +355,8 @@ def check_case(case, acc):
 
 def decide(f, case, df, X):
     """None when X has full column rank and spans the model space on df; 'undecided'; or (clause, sig, message)."""
+    if not np.isfinite(X).all():
+        return ("full-column-rank", "not-finite", "the matrix holds NaN / inf for finite data")
     R = reference(case, df)
     try:
         ok, rep = linalg.same_span(X, R)
